@@ -6,6 +6,9 @@ import (
 	"reflect"
 	"strings"
 
+	"go.mongodb.org/mongo-driver/bson"
+	"go.mongodb.org/mongo-driver/bson/primitive"
+
 	"github.com/256dpi/lungo/bsonkit"
 )
 
@@ -99,4 +102,31 @@ func useTransaction(ctx context.Context, engine *Engine, lock bool, fn func(*Tra
 	}
 
 	return res, nil
+}
+
+// copyValue returns a deep copy of a stored value that is handed out to the
+// caller (ids, distinct values). In contrast to bsonkit.CloneValue it also
+// copies binary data, so that the caller may modify the result freely.
+func copyValue(v interface{}) interface{} {
+	switch value := v.(type) {
+	case primitive.Binary:
+		return primitive.Binary{
+			Subtype: value.Subtype,
+			Data:    append([]byte(nil), value.Data...),
+		}
+	case bson.D:
+		d := make(bson.D, 0, len(value))
+		for _, e := range value {
+			d = append(d, bson.E{Key: e.Key, Value: copyValue(e.Value)})
+		}
+		return d
+	case bson.A:
+		a := make(bson.A, 0, len(value))
+		for _, e := range value {
+			a = append(a, copyValue(e))
+		}
+		return a
+	default:
+		return v
+	}
 }
